@@ -8,9 +8,11 @@ Full-strength goal (kept visible):
   ∧ validateParameter p r = validateSpec p r.
 What is proved: the round trip per location and shape for *both* flavours (code / specification) under the
 explicit `Encodable` side conditions; `validateParameter = validateSpec` is NOT a theorem of the pinned code:
-it fails inside four decidable exclusion classes, each with a kernel-checked witness below
-(CookieExplode #31, EnumGoType #42, AddlShadow, QueryObjAbsent); outside them the two flavours agree
-layer by layer (`parsePrim_eq_specPrim` — full strength since the repair of F-C05-3 —, `visitPS_impl_eq_spec_partial`, `cookieArr_flavour_partial`, `makeObject_shadow_partial`).
+it fails inside three decidable exclusion classes, each with a kernel-checked witness below
+(CookieExplode #31, EnumGoType #42, QueryObjAbsent); outside them the two flavours agree
+layer by layer (`parsePrim_eq_specPrim` — full strength since the repair of F-C05-3 —, `visitPS_impl_eq_spec_partial`,
+`cookieArr_flavour_partial`, `queryObj_absent_partial`; the object builder `makeObject` has no flavour any more since the
+repair of F-C05-4 in 997bea5: `makeObject_lookup_addl`, `addl_shadow_regression`).
 -/
 import KinModel.Style
 import KinModel.Lemmas.C05Str
@@ -248,10 +250,10 @@ theorem parseArr_err (prim : PT → Str → PR) (t : PT) (pre : List Str) (vs : 
 /-! ### decode ∘ encode, objects -/
 
 /-- "a,1,b,x" (explode=false in every location, path simple/label/matrix, header, cookie, query form) -/
-theorem objOut_flat_roundtrip (prim : PT → Str → PR) (shadow : Bool) (kvs : List (Str × Str)) (hne : kvs ≠ [])
+theorem objOut_flat_roundtrip (prim : PT → Str → PR) (kvs : List (Str × Str)) (hne : kvs ≠ [])
     (hfree : ∀ kv ∈ kvs, ',' ∉ kv.1 ∧ ',' ∉ kv.2) (sprops : List (Str × PS)) (addl : Option PS) :
-    objOut prim shadow true (joinL [','] (flatKV kvs)) [','] [','] sprops addl =
-      match makeObject prim shadow kvs sprops addl with
+    objOut prim true (joinL [','] (flatKV kvs)) [','] [','] sprops addl =
+      match makeObject prim kvs sprops addl with
       | none => ⟨.nilObj, true, some .parse⟩
       | some res => ⟨.obj res, true, none⟩ := by
   unfold objOut
@@ -259,10 +261,10 @@ theorem objOut_flat_roundtrip (prim : PT → Str → PR) (shadow : Bool) (kvs : 
   rfl
 
 /-- "a=1,b=x" / ".a=1.b=x" / ";a=1;b=x" (explode=true: path simple/label/matrix, header) -/
-theorem objOut_eq_roundtrip (prim : PT → Str → PR) (shadow : Bool) (p0 : Char) (hp : p0 ≠ '=') (kvs : List (Str × Str)) (hne : kvs ≠ [])
+theorem objOut_eq_roundtrip (prim : PT → Str → PR) (p0 : Char) (hp : p0 ≠ '=') (kvs : List (Str × Str)) (hne : kvs ≠ [])
     (hfree : ∀ kv ∈ kvs, p0 ∉ kv.1 ∧ p0 ∉ kv.2 ∧ '=' ∉ kv.1 ∧ '=' ∉ kv.2) (sprops : List (Str × PS)) (addl : Option PS) :
-    objOut prim shadow true (joinL [p0] (eqKV kvs)) [p0] ['='] sprops addl =
-      match makeObject prim shadow kvs sprops addl with
+    objOut prim true (joinL [p0] (eqKV kvs)) [p0] ['='] sprops addl =
+      match makeObject prim kvs sprops addl with
       | none => ⟨.nilObj, true, some .parse⟩
       | some res => ⟨.obj res, true, none⟩ := by
   unfold objOut
@@ -271,8 +273,8 @@ theorem objOut_eq_roundtrip (prim : PT → Str → PR) (shadow : Bool) (p0 : Cha
 
 /-- without an additionalProperties schema the decoded object holds, for every declared property, the value
 its text stands for — independent of the order in which the pairs were written -/
-theorem makeObject_lookup (prim : PT → Str → PR) (shadow : Bool) (props : List (Str × Str)) (sprops : List (Str × PS))
-    (res : List (Str × PV)) (hnd : (sprops.map Prod.fst).Nodup) (h : makeObject prim shadow props sprops none = some res) (k : Str) :
+theorem makeObject_lookup (prim : PT → Str → PR) (props : List (Str × Str)) (sprops : List (Str × PS))
+    (res : List (Str × PV)) (hnd : (sprops.map Prod.fst).Nodup) (h : makeObject prim props sprops none = some res) (k : Str) :
     res.lookup k = propVal prim props sprops k := by
   unfold makeObject at h
   cases hb : buildProps prim props sprops with
@@ -282,9 +284,9 @@ theorem makeObject_lookup (prim : PT → Str → PR) (shadow : Bool) (props : Li
     exact buildProps_lookup prim props sprops base hnd hb k
 
 /-- an odd number of comma-separated items is never an object (explode=false): ParseError -/
-theorem objOut_odd_is_parse_error (prim : PT → Str → PR) (shadow found : Bool) (src : Str) (sprops : List (Str × PS)) (addl : Option PS)
+theorem objOut_odd_is_parse_error (prim : PT → Str → PR) (found : Bool) (src : Str) (sprops : List (Str × PS)) (addl : Option PS)
     (h : (splitOn [','] src).length % 2 = 1) :
-    objOut prim shadow found src [','] [','] sprops addl = ⟨.nilObj, found, some .parse⟩ := by
+    objOut prim found src [','] [','] sprops addl = ⟨.nilObj, found, some .parse⟩ := by
   unfold objOut propsFromString
   simp [pairUp_none_of_odd _ h]
 
@@ -301,7 +303,7 @@ theorem query_object_explode_roundtrip (fl : Flavour) (hfl : fl.absentAware = fa
     (sprops : List (Str × PS)) (rq : List Str) (addl : Option PS) :
     ∃ r, encode ⟨.query, .form, true⟩ name (.obj kvs) = some r ∧
       decodeStyled fl ⟨.query, .form, true⟩ name req r (.leaf (.obj sprops rq addl)) =
-        match makeObject fl.prim fl.addlShadow kvs sprops addl with
+        match makeObject fl.prim kvs sprops addl with
         | none => ⟨.nilObj, false, some .parse⟩
         | some res => ⟨.obj res, queryObjFound sprops kvs res, none⟩ := by
   have hfa : fl.absentAware = false := hfl
@@ -324,7 +326,7 @@ theorem path_object_roundtrip (fl : Flavour) (name : Str) (st : Sty) (req : Bool
     (kvs : List (Str × Str)) (henc : encodable ⟨.path, st, false⟩ name (.obj kvs) = true) :
     ∃ r, encode ⟨.path, st, false⟩ name (.obj kvs) = some r ∧
       decodeStyled fl ⟨.path, st, false⟩ name req r (.leaf (.obj sprops rq addl)) =
-        match makeObject fl.prim fl.addlShadow kvs sprops addl with
+        match makeObject fl.prim kvs sprops addl with
         | none => ⟨.nilObj, true, some .parse⟩
         | some res => ⟨.obj res, true, none⟩ := by
   have hne : kvs ≠ [] := by
@@ -352,15 +354,15 @@ theorem path_object_roundtrip (fl : Flavour) (name : Str) (st : Sty) (req : Bool
   · refine ⟨{ path := some (joinL [','] (flatKV kvs)) }, by simp [encode, encPath], ?_⟩
     simp only [decodeStyled, earlyAbsent, decodeValue, decodeLeaf, pathObj, pathObjFmt, pathRaw_some _ hj, cutPrefix,
       List.isPrefixOf, List.length_nil, List.drop_zero]
-    simpa using objOut_flat_roundtrip fl.prim fl.addlShadow kvs hne hfree sprops addl
+    simpa using objOut_flat_roundtrip fl.prim kvs hne hfree sprops addl
   · have hraw : ['.'] ++ joinL [','] (flatKV kvs) ≠ [] := by simp
     refine ⟨{ path := some (['.'] ++ joinL [','] (flatKV kvs)) }, by simp [encode, encPath], ?_⟩
     simp only [decodeStyled, earlyAbsent, decodeValue, decodeLeaf, pathObj, pathObjFmt, pathRaw_some _ hraw, cutPrefix_append]
-    simpa using objOut_flat_roundtrip fl.prim fl.addlShadow kvs hne hfree sprops addl
+    simpa using objOut_flat_roundtrip fl.prim kvs hne hfree sprops addl
   · have hraw : semi name ++ joinL [','] (flatKV kvs) ≠ [] := by simp [semi]
     refine ⟨{ path := some (semi name ++ joinL [','] (flatKV kvs)) }, by simp [encode, encPath], ?_⟩
     simp only [decodeStyled, earlyAbsent, decodeValue, decodeLeaf, pathObj, pathObjFmt, pathRaw_some _ hraw, cutPrefix_append]
-    simpa using objOut_flat_roundtrip fl.prim fl.addlShadow kvs hne hfree sprops addl
+    simpa using objOut_flat_roundtrip fl.prim kvs hne hfree sprops addl
 
 /-- header, explode=true: "a=1,b=x" -/
 theorem header_object_explode_roundtrip (fl : Flavour) (name : Str) (req : Bool)
@@ -368,7 +370,7 @@ theorem header_object_explode_roundtrip (fl : Flavour) (name : Str) (req : Bool)
     (kvs : List (Str × Str)) (henc : encodable ⟨.header, .simple, true⟩ name (.obj kvs) = true) :
     ∃ r, encode ⟨.header, .simple, true⟩ name (.obj kvs) = some r ∧
       decodeStyled fl ⟨.header, .simple, true⟩ name req r (.leaf (.obj sprops rq addl)) =
-        match makeObject fl.prim fl.addlShadow kvs sprops addl with
+        match makeObject fl.prim kvs sprops addl with
         | none => ⟨.nilObj, true, some .parse⟩
         | some res => ⟨.obj res, true, none⟩ := by
   have hne : kvs ≠ [] := by
@@ -380,7 +382,7 @@ theorem header_object_explode_roundtrip (fl : Flavour) (name : Str) (req : Bool)
     exact ⟨this.1.1.1, this.1.1.2, this.1.2, this.2⟩
   refine ⟨{ header := some [joinL [','] (eqKV kvs)] }, by simp [encode, encHeader], ?_⟩
   simp only [decodeStyled, earlyAbsent, decodeValue, decodeLeaf, headerObj, headerRaw]
-  simpa using objOut_eq_roundtrip fl.prim fl.addlShadow ',' (by decide) kvs hne hfree sprops addl
+  simpa using objOut_eq_roundtrip fl.prim ',' (by decide) kvs hne hfree sprops addl
 
 /-- header explode=false, cookie (where the decoder does not refuse the cell) and query form explode=false: "a,1,b,x" -/
 theorem header_object_roundtrip (fl : Flavour) (name : Str) (req : Bool)
@@ -388,7 +390,7 @@ theorem header_object_roundtrip (fl : Flavour) (name : Str) (req : Bool)
     (kvs : List (Str × Str)) (henc : encodable ⟨.header, .simple, false⟩ name (.obj kvs) = true) :
     ∃ r, encode ⟨.header, .simple, false⟩ name (.obj kvs) = some r ∧
       decodeStyled fl ⟨.header, .simple, false⟩ name req r (.leaf (.obj sprops rq addl)) =
-        match makeObject fl.prim fl.addlShadow kvs sprops addl with
+        match makeObject fl.prim kvs sprops addl with
         | none => ⟨.nilObj, true, some .parse⟩
         | some res => ⟨.obj res, true, none⟩ := by
   have hne : kvs ≠ [] := by
@@ -400,14 +402,14 @@ theorem header_object_roundtrip (fl : Flavour) (name : Str) (req : Bool)
     exact ⟨this.1.1.1, this.1.1.2⟩
   refine ⟨{ header := some [joinL [','] (flatKV kvs)] }, by simp [encode, encHeader], ?_⟩
   simp only [decodeStyled, earlyAbsent, decodeValue, decodeLeaf, headerObj, headerRaw]
-  simpa using objOut_flat_roundtrip fl.prim fl.addlShadow kvs hne hfree sprops addl
+  simpa using objOut_flat_roundtrip fl.prim kvs hne hfree sprops addl
 
 theorem cookie_object_roundtrip_partial (fl : Flavour) (name : Str) (ex req : Bool) (hck : (fl.cookieExplodeBad && ex) = false)
     (sprops : List (Str × PS)) (rq : List Str) (addl : Option PS)
     (kvs : List (Str × Str)) (henc : encodable ⟨.cookie, .form, ex⟩ name (.obj kvs) = true) :
     ∃ r, encode ⟨.cookie, .form, ex⟩ name (.obj kvs) = some r ∧
       decodeStyled fl ⟨.cookie, .form, ex⟩ name req r (.leaf (.obj sprops rq addl)) =
-        match makeObject fl.prim fl.addlShadow kvs sprops addl with
+        match makeObject fl.prim kvs sprops addl with
         | none => ⟨.nilObj, true, some .parse⟩
         | some res => ⟨.obj res, true, none⟩ := by
   have hne : kvs ≠ [] := by
@@ -419,7 +421,7 @@ theorem cookie_object_roundtrip_partial (fl : Flavour) (name : Str) (ex req : Bo
     exact ⟨this.1.1.1, this.1.1.2⟩
   refine ⟨{ cookie := some (joinL [','] (flatKV kvs)) }, by simp [encode, encCookie], ?_⟩
   simp only [decodeStyled, earlyAbsent, decodeValue, decodeLeaf, cookieObj, hck]
-  simpa using objOut_flat_roundtrip fl.prim fl.addlShadow kvs hne hfree sprops addl
+  simpa using objOut_flat_roundtrip fl.prim kvs hne hfree sprops addl
 
 /-- the three path styles, explode=true: "a=1,b=x", ".a=1.b=x", ";a=1;b=x" -/
 theorem path_object_explode_roundtrip (fl : Flavour) (name : Str) (st : Sty) (req : Bool)
@@ -427,7 +429,7 @@ theorem path_object_explode_roundtrip (fl : Flavour) (name : Str) (st : Sty) (re
     (kvs : List (Str × Str)) (henc : encodable ⟨.path, st, true⟩ name (.obj kvs) = true) :
     ∃ r, encode ⟨.path, st, true⟩ name (.obj kvs) = some r ∧
       decodeStyled fl ⟨.path, st, true⟩ name req r (.leaf (.obj sprops rq addl)) =
-        match makeObject fl.prim fl.addlShadow kvs sprops addl with
+        match makeObject fl.prim kvs sprops addl with
         | none => ⟨.nilObj, true, some .parse⟩
         | some res => ⟨.obj res, true, none⟩ := by
   have hne : kvs ≠ [] := by
@@ -449,7 +451,7 @@ theorem path_object_explode_roundtrip (fl : Flavour) (name : Str) (st : Sty) (re
     refine ⟨{ path := some (joinL [','] (eqKV kvs)) }, by simp [encode, encPath], ?_⟩
     simp only [decodeStyled, earlyAbsent, decodeValue, decodeLeaf, pathObj, pathObjFmt, pathRaw_some _ (hj ','), cutPrefix,
       List.isPrefixOf, List.length_nil, List.drop_zero]
-    simpa using objOut_eq_roundtrip fl.prim fl.addlShadow ',' (by decide) kvs hne hfree sprops addl
+    simpa using objOut_eq_roundtrip fl.prim ',' (by decide) kvs hne hfree sprops addl
   · have hfree : ∀ kv ∈ kvs, '.' ∉ kv.1 ∧ '.' ∉ kv.2 ∧ '=' ∉ kv.1 ∧ '=' ∉ kv.2 := by
       intro kv hkv
       simp [encodable, encodableObj, objDelims, pathObjFmt, List.all_eq_true, freeOf] at henc
@@ -458,7 +460,7 @@ theorem path_object_explode_roundtrip (fl : Flavour) (name : Str) (st : Sty) (re
     have hraw : ['.'] ++ joinL ['.'] (eqKV kvs) ≠ [] := by simp
     refine ⟨{ path := some (['.'] ++ joinL ['.'] (eqKV kvs)) }, by simp [encode, encPath], ?_⟩
     simp only [decodeStyled, earlyAbsent, decodeValue, decodeLeaf, pathObj, pathObjFmt, pathRaw_some _ hraw, cutPrefix_append]
-    simpa using objOut_eq_roundtrip fl.prim fl.addlShadow '.' (by decide) kvs hne hfree sprops addl
+    simpa using objOut_eq_roundtrip fl.prim '.' (by decide) kvs hne hfree sprops addl
   · have hfree : ∀ kv ∈ kvs, ';' ∉ kv.1 ∧ ';' ∉ kv.2 ∧ '=' ∉ kv.1 ∧ '=' ∉ kv.2 := by
       intro kv hkv
       simp [encodable, encodableObj, objDelims, pathObjFmt, List.all_eq_true, freeOf] at henc
@@ -467,7 +469,7 @@ theorem path_object_explode_roundtrip (fl : Flavour) (name : Str) (st : Sty) (re
     have hraw : [';'] ++ joinL [';'] (eqKV kvs) ≠ [] := by simp
     refine ⟨{ path := some ([';'] ++ joinL [';'] (eqKV kvs)) }, by simp [encode, encPath], ?_⟩
     simp only [decodeStyled, earlyAbsent, decodeValue, decodeLeaf, pathObj, pathObjFmt, pathRaw_some _ hraw, cutPrefix_append]
-    simpa using objOut_eq_roundtrip fl.prim fl.addlShadow ';' (by decide) kvs hne hfree sprops addl
+    simpa using objOut_eq_roundtrip fl.prim ';' (by decide) kvs hne hfree sprops addl
 
 /-- end to end, no side condition left: every non-empty list of int64 values, written in decimal and joined with
 commas, is decoded from a header back to exactly that list by the code's decoder -/
@@ -511,7 +513,7 @@ theorem query_object_roundtrip (fl : Flavour) (name : Str) (req : Bool)
     (kvs : List (Str × Str)) (henc : encodable ⟨.query, .form, false⟩ name (.obj kvs) = true) :
     ∃ r, encode ⟨.query, .form, false⟩ name (.obj kvs) = some r ∧
       decodeStyled fl ⟨.query, .form, false⟩ name req r (.leaf (.obj sprops rq addl)) =
-        match makeObject fl.prim fl.addlShadow kvs sprops addl with
+        match makeObject fl.prim kvs sprops addl with
         | none => ⟨.nilObj, false, some .parse⟩
         | some res => ⟨.obj res, queryObjFound sprops kvs res, none⟩ := by
   have hne : kvs ≠ [] := by
@@ -565,7 +567,7 @@ theorem deep_object_roundtrip_makeObject (fl : Flavour) (name : Str) (req : Bool
     (kvs : List (Str × Str)) (henc : encodable ⟨.query, .deepObject, true⟩ name (.obj kvs) = true) :
     ∃ r, encode ⟨.query, .deepObject, true⟩ name (.obj kvs) = some r ∧
       decodeStyled fl ⟨.query, .deepObject, true⟩ name req r (.leaf (.obj sprops rq none)) =
-        match makeObject fl.prim fl.addlShadow kvs sprops none with
+        match makeObject fl.prim kvs sprops none with
         | none => ⟨.nilObj, false, some .parse⟩
         | some res => ⟨.obj res, deepFound (sprops.map (fun kv => (kv.1, DS.prim kv.2))) (deepPairs kvs) (liftP res), none⟩ := by
   have hd : distinctKeys kvs = true := by
@@ -775,11 +777,6 @@ theorem cookieArr_flavour_partial (prim : PT → Str → PR) (st : Sty) (ex : Bo
     cookieArr prim true st ex r t = cookieArr prim false st ex r t := by
   subst h; simp [cookieArr]
 
-/-- AddlShadow: without an additionalProperties schema the re-decoding loop does not exist -/
-theorem makeObject_shadow_partial (prim : PT → Str → PR) (props : List (Str × Str)) (sprops : List (Str × PS)) :
-    makeObject prim true props sprops none = makeObject prim false props sprops none := by
-  simp [makeObject]
-
 /-! ### witnesses: inside each class the code's verdict differs from the specification's -/
 
 def intArr : Sch := .leaf (.arr { t := .integer } none none [])
@@ -810,12 +807,21 @@ theorem nondecimal_int_regression :
     (decodeStyled impl p.cell p.name false r p.schema).val = .prim (.int 10) := by
   decide
 
-/-- AddlShadow: header `p: n,1.5` with properties {n: number}, additionalProperties {integer} -/
-theorem addl_shadow_witness :
+/-- regression (former witness of F-C05-4, class AddlShadow, repaired in 997bea5): header `p: n,1.5` with properties
+{n: number} and additionalProperties {integer}: the declared property keeps the value decoded with its own schema
+(before: re-decoded as an integer → ParseError; `n,2` came out as the int64 2); an undeclared key still goes through
+the additionalProperties schema. Code and specification agree on all of them. -/
+theorem addl_shadow_regression :
     let p : Param := ⟨⟨.header, .simple, false⟩, ['p'], false, false,
       .leaf (.obj [(['n'], { t := .number })] [] (some { t := .integer }))⟩
     let r : Req := { header := some ["n,1.5".toList] }
-    AddlShadow p = true ∧ validateParameter p r = .parse ∧ validateSpec p r = .accept := by
+    let r2 : Req := { header := some ["n,2,z,7".toList] }
+    let r3 : Req := { header := some ["n,2,z,1.5".toList] }
+    validateParameter p r = .accept ∧ validateSpec p r = .accept ∧
+    (decodeStyled impl p.cell p.name false r p.schema).val = .obj [(['n'], .num 15 (-1))] ∧
+    decodeStyled impl p.cell p.name false r2 p.schema = ⟨.obj [(['n'], .num 2 0), (['z'], .int 7)], true, none⟩ ∧
+    decodeStyled spec p.cell p.name false r2 p.schema = decodeStyled impl p.cell p.name false r2 p.schema ∧
+    validateParameter p r3 = .parse ∧ validateSpec p r3 = .parse := by
   decide
 
 /-- QueryObjAbsent: `?zz=1`, optional exploded object `{required: [a], properties: {a: integer}}`: the parameter is
@@ -829,10 +835,10 @@ theorem query_obj_absent_witness :
 
 /-- outside the class (a declared property is present, or the object has an additionalProperties schema, or the
 cell is not query/form/explode) the two flavours of `queryObj` coincide -/
-theorem queryObj_absent_partial (prim : PT → Str → PR) (shadow : Bool) (name : Str) (st : Sty) (ex : Bool) (r : Req)
+theorem queryObj_absent_partial (prim : PT → Str → PR) (name : Str) (st : Sty) (ex : Bool) (r : Req)
     (sprops : List (Str × PS)) (addl : Option PS)
     (h : ex = false ∨ addl.isSome = true ∨ (firstVals r.query).any (fun kv => hasKey kv.1 sprops) = true) :
-    queryObj prim shadow true name st ex r sprops addl = queryObj prim shadow false name st ex r sprops addl := by
+    queryObj prim true name st ex r sprops addl = queryObj prim false name st ex r sprops addl := by
   unfold queryObj
   rcases h with h | h | h
   · simp [h]
